@@ -175,7 +175,16 @@ def run_sort(case, d):
         core.write_text(inp, text)
     out = d + ("/out.gaf.gz" if case["bgzip_out"] else "/out.gaf")
     ind = d + "/custom.idx" if case.get("outind") else None
-    if case.get("via", "api") == "cli":
+    if case.get("via") == "subprocess":
+        # a fresh interpreter, exactly as the command is used (nothing left over from earlier calls in this process)
+        import subprocess
+        import sys as _sys
+
+        env = dict(os.environ, PYTHONPATH=core.REPO)
+        p_ = subprocess.run([_sys.executable, "-m", "gaftools", "sort", inp, d + "/g.gfa", "--outgaf", out], cwd=core.REPO, env=env,
+                            stdout=subprocess.DEVNULL, stderr=subprocess.PIPE, timeout=1800)
+        res = ("ok", None) if p_.returncode == 0 else ("exit", "%d %s" % (p_.returncode, p_.stderr.decode(errors="replace")[-300:]))
+    elif case.get("via", "api") == "cli":
         if ind and len(case["gaf"]) % 2 == 0:
             # paths relative to the working directory, the sorted GAF in a sub-directory, the index next to the input
             os.makedirs(d + "/sorted", exist_ok=True)
@@ -304,7 +313,7 @@ def enumerations(tier, shard, nshards):
         rnd = random.Random(9)
         order = [rnd.randrange(len(c08.POOL)) for _ in range(n)]
         gaf = [c08.POOL[k].replace("p%d\t" % k, "v%d\t" % i, 1) for i, k in enumerate(order)]
-        yield {"gfa": c08.POOL_GFA, "gaf": gaf, "bgzf": None, "bgzip_out": False, "final_newline": True, "outind": False, "via": "api",
+        yield {"gfa": c08.POOL_GFA, "gaf": gaf, "bgzf": None, "bgzip_out": False, "final_newline": True, "outind": False, "via": "subprocess",
                "tag_with_order_gfa": False}
 
     yield ("%s records drawn from the near-tie pool" % ("100 003" if tier == "quick" else "500 001"), big(), True)
